@@ -15,10 +15,8 @@ import (
 //   - ~@R and ~:@R for every n in 1..3999, and the numbers just outside (an error is expected);
 //   - ~R and ~:R for the numbers that print each entry of the word tables: 0..19, the tens, tens + units,
 //     hundreds, 10^3k and its neighbours for every scale word, negative numbers.
-// The known findings are respected through the static predicate proved exact in Coq
-// (EnglishProofs.english_ok, C15_english_loop_exact; C15_dirR_roman_exact): the English text is compared exactly
-// where english_ok holds (ordinals
-// only of numbers that do not end in 0 beyond 10), the Roman text everywhere but at 0.
+// What is compared is what is proved in Coq of the unchanged code: the English text for every integer, an error from
+// 10^66 on (C15_english_loop, since repo_fixes/C15-1..4), the Roman text everywhere but at 0 (C15_dirR_roman_exact).
 // Every difference is reported with its input.
 
 func specRoman(old bool, n int) string {
@@ -123,19 +121,6 @@ func specEnglish(ordinal bool, z *big.Int) (string, bool) {
 	return strings.Join(ws, " "), true
 }
 
-// EnglishProofs.english_ok
-func englishOK(ordinal bool, z *big.Int) bool {
-	n := new(big.Int).Abs(z)
-	if n.Cmp(pow10[66]) >= 0 {
-		return true // both signal an error
-	}
-	if !ordinal || n.Sign() == 0 {
-		return true
-	}
-	r := int(new(big.Int).Mod(n, big.NewInt(100)).Int64())
-	return (1 <= r && r < 20) || r%10 != 0
-}
-
 func specSweep(ctx *common.Ctx) {
 	reported := map[string]int{}
 	violate := func(what, src, got, want string) {
@@ -204,10 +189,6 @@ func specSweep(ctx *common.Ctx) {
 			dir := "~R"
 			if ordinal {
 				dir = "~:R"
-			}
-			if !englishOK(ordinal, z) {
-				ctx.Hist("spec-sweep:outside-english_ok")
-				continue
 			}
 			want, ok := specEnglish(ordinal, z)
 			report(fmt.Sprintf(`(format nil "%s" %s)`, dir, z.String()), want, !ok)
